@@ -46,9 +46,14 @@ func getTypeInfo(t reflect.Type) *theTypeInfo {
 		sort.Sort(sortableFieldInfos(typeInfo.Fields))
 	}
 
-	// Publish
+	// Publish, unless another goroutine did so meanwhile: a type has one info
+	// (the cycle detection of the generator compares infos by identity)
 	typeInfosMutex.Lock()
-	typeInfos[t] = typeInfo
+	if published, exists := typeInfos[t]; exists {
+		typeInfo = published
+	} else {
+		typeInfos[t] = typeInfo
+	}
 	typeInfosMutex.Unlock()
 	return typeInfo
 }
